@@ -9,5 +9,5 @@ for pair in "A:$a" "B:$b"; do
   ls $d/$id/$src | grep -v -E "^(patch.diff|meta.json|demo_test.go)$" | while read f; do cp -r $d/$id/$src/$f /verif/seeded/$id$suf/; done
 done
 [ -f $d/$id/A/patch.diff ] && [ -f $d/$id/B/patch.diff ] || { echo "$id: deliverables incomplete, worktree kept"; exit 0; }
-for wt in /tmp/seedgen/wt3-$id /tmp/seedgen/wt4-$id; do [ -d $wt ] && git -C /repo worktree remove --force $wt; done
+for wt in /tmp/seedgen/wt3-$id /tmp/seedgen/wt4-$id /tmp/seedgen/wt5-$id; do [ -d $wt ] && git -C /repo worktree remove --force $wt; done
 /verif/tools/verify_seed.sh $id$a $id$b
